@@ -618,6 +618,7 @@ func init() {
 			"(E6.negotiation-intersection) families are negotiated inside local ∩ remote, each ADD-PATH direction needs the local bit and the peer's complementary bit, and all received ADD-PATH capability instances are merged; (E6.marshalling-options) the options used to parse and emit on the session come from the negotiated state; (E4.extended-message-types) receiver and serialiser lift the 4096 cap for exactly UPDATE/NOTIFICATION/ROUTE-REFRESH; (E6.as-trans) the raw 2-octet My-AS is only read through the 4-octet-aware helper and AS_TRANS is substituted exactly above 65535; (E6.addpath-direction) serialisers use the send and decoders the receive direction. Also: (E6.option-scan-any) marshalling options combine by OR; (E6.hold-timer-source) only OPEN construction and negotiation read the configured hold time; (E6.per-family-independent) the local ADD-PATH mode of a family does not depend on the families before it.",
 		Not: "The numeric results for all configurations and OPEN messages (which capability multiset yields which option values) are not decided beyond these shapes.",
 		Run: func(c *Ctx) {
+			c.ruleRatchets("C08")
 			c.ruleSessionOptionsRefreshed("E6.session-options", nil, 7)
 			c.ruleHoldTimeMin()
 			c.ruleHoldTimeDomain()
